@@ -1099,7 +1099,7 @@ func main() {
 
 	meta := gallina.NewMeta("C45", f.Seed, f.Tier)
 	meta.Rule = "fixed corpus histories + seeded random histories (3-7 scraped series with churn and scrape staleness markers, 1-3 groups of 1-4 recording rules with dependent/independent expressions, 6-22 time steps with evaluations in random group order, reloads adding/removing/reordering/duplicating/moving rules, group removals); a history is non-trivial if the implementation wrote at least one accepted staleness marker from a rule evaluation and at least one reload or removal happened; distinct by the printed operation list"
-	perShard := 45
+	perShard := 80
 	if f.Tier == "thorough" {
 		perShard = 150 // fewer coqc start-ups
 	}
@@ -1223,7 +1223,7 @@ func main() {
 		runCase(id, ops, true)
 		id++
 	}
-	n := f.Count(66, 1800)
+	n := f.Count(60, 1400)
 	for i := 0; i < n; i++ {
 		runCase(id, genCase(gen.Fork(f.Seed, i), f.Tier), false)
 		id++
